@@ -190,10 +190,17 @@ def classify_alias(case, obs):
 def gen_cli(rng, n, tier):
     bad = [["S", "%S()"], ["A", "%B()"], ["Bad", "%Upper{"], ["U", "%NoSuchTag()"], ["Z", "%Count(step=0)"], ["P", "x|y"],
            # the mistake sits after a line break inside the alias pattern (the report must still be a template error)
+           ["T2", "%T2()_%T2()"], ["T3", "%Upper(){%T3()%T3()}-%T3()"],
            ["NL", "a_\n%NoSuchTag()"], ["NL2", "x\n\n%Upper{"], ["NL3", "ok\n%Count(step=0)"]]
     for _ in range(n):
         a = rng.choice(bad)
         extra = [["B", "%A()"]] if a[0] == "A" else []
+        if rng.random() < 0.15:
+            # an alias whose pattern uses, unqualified, a name that a user alias shares with a built-in tag: written in
+            # place that is an ambiguous name, so it is one inside the alias too
+            shadow, pat = rng.choice([(["Ext", ".bak"], "%Base()%Ext()"), (["Upper", "u"], "%Upper(){x}"), (["Size", "9"], "%Size()")])
+            yield {"aliases": [shadow, ["Nn", pat]], "template": "%Nn()_%Core.Name()"}
+            continue
         yield {"aliases": [a] + extra, "template": rng.choice(["%{}()_%Name()", "%Name()%{}()", "%Upper(){{%{}()}}"]).format(a[0])}
 
 
